@@ -1,6 +1,7 @@
 package enga
 
 import (
+	"sort"
 	"errors"
 	"fmt"
 	"os"
@@ -67,6 +68,33 @@ type Sess struct {
 	cfgs         map[string]*snaps.Config
 	// options applied to a zero-value snaps.Config instead of going through WithConfig
 	ZeroConfigs bool
+	// called before every step of a simulated process (foreign edits between calls)
+	BeforeStep func(o Op)
+}
+
+// ForeignEditStandalone replaces the bytes of an existing standalone file behind the
+// library's back (another tool, a hand edit, a checkout) and mirrors it in the model.
+func (s *Sess) ForeignEditStandalone(path, content string) {
+	sl := s.Store.Files[path]
+	if len(sl) != 1 || sl[0].ID != "" {
+		panic("ForeignEditStandalone: not a standalone file of the model: " + path)
+	}
+	if err := os.WriteFile(path, []byte(content), 0o644); err != nil {
+		panic(err)
+	}
+	sl[0].Text, sl[0].Raw = content, content
+}
+
+// StandaloneFiles lists the standalone files the model currently holds, sorted.
+func (s *Sess) StandaloneFiles() []string {
+	var out []string
+	for p, sl := range s.Store.Files {
+		if len(sl) == 1 && sl[0].ID == "" {
+			out = append(out, p)
+		}
+	}
+	sort.Strings(out)
+	return out
 }
 
 const defaultBase = "sess_test" // base name of this file: what Filename defaults to
@@ -534,6 +562,45 @@ func goValue(r interface{ IntN(int) int }, depth int) any {
 	default:
 		return fmt.Sprintf("s%d", r.IntN(50))
 	}
+}
+
+// Values whose formatted text is (or contains) caller-chosen raw text without being
+// of type string: kr/pretty prints the result of GoString() verbatim, and a named
+// string type like a string. They carry the same hostile texts as plain strings.
+type goStringer struct{ Text string }
+
+func (g goStringer) GoString() string { return g.Text }
+
+type ptrGoStringer struct{ Text string }
+
+func (g *ptrGoStringer) GoString() string { return g.Text }
+
+type namedText string
+
+type report struct {
+	Title string
+	Body  goStringer
+}
+
+// textCarrier wraps the text s in one of those types; the expected formatted text is
+// what the (trusted) formatter prints for it.
+func textCarrier(r interface{ IntN(int) int }, s string, cl vkit.Classes) Val {
+	var g any
+	switch r.IntN(4) {
+	case 0:
+		g = goStringer{Text: s}
+		cl["value-gostringer"] = true
+	case 1:
+		g = &ptrGoStringer{Text: s}
+		cl["value-gostringer-pointer"] = true
+	case 2:
+		g = namedText(s)
+		cl["value-named-string-type"] = true
+	default:
+		g = report{Title: "t", Body: goStringer{Text: s}}
+		cl["value-struct-with-gostringer-field"] = true
+	}
+	return Val{Kind: "go", G: g, S: krpretty.Sprint(g)}
 }
 
 func goVal(r interface{ IntN(int) int }) Val {
